@@ -418,8 +418,9 @@ def same(a, b):
     return same_result(norm(a), norm(b))
 
 
-def page_case(rng, doc, sel, tags=(), kind="structured", hist=None, flags=None):
-    """hist = (kind, steps) done on the source before the import; flags = cache configuration (None: random)"""
+def page_case(rng, doc, sel, tags=(), kind="structured", hist=None, flags=None, model=None, jopts=None):
+    """hist = (kind, steps) done on the source before the import; flags = cache configuration (None: random);
+    model = False: judged by the specification only; jopts: options of G.judge_import"""
     data = docs.write(doc, rng)
     hkind, steps = hist if hist is not None else ("none", [])
     g = apply_updates(dict(doc.objs), steps)
@@ -430,17 +431,17 @@ def page_case(rng, doc, sel, tags=(), kind="structured", hist=None, flags=None):
     st = b",".join(b"%d" % i for i in sel)
     tags = list(tags) + ["hist:" + hkind, "cfg:" + (flags.decode() or "-")]
 
-    def chk(r, g=g, tr=tr, sel=list(sel), exp=doc.expect):
+    def chk(r, g=g, tr=tr, sel=list(sel), exp=doc.expect, jopts=dict(jopts or {})):
         if r[0] == "ERR":
             # the property speaks about imports that succeed; an error is allowed (typed writers refuse some values)
             return None
         if r[0] != "OK":
             return "importing must not %s (%s)" % (r[0], r[1][:80])
-        return G.judge_import(g, tr, sel, r[1], expect=exp)
+        return G.judge_import(g, tr, sel, r[1], expect=exp, **jopts)
     # the model clones dictionary forms; a value the typed writers refuse (ColorSpace::to_primitive for DeviceGray …)
     # ends the real import in an error the model cannot predict: such documents are judged by the spec only
     return Case("import", [b"s", data, st, flags or b"-"] + ([hist_text(steps)] if steps else []), mfields=[graph_text(g), pt], check=chk,
-                model="typed-writer-refuses" not in doc.features, tags=["pages"] + sorted(doc.features) + list(tags), kind=kind)
+                model=("typed-writer-refuses" not in doc.features) if model is None else model, tags=["pages"] + sorted(doc.features) + list(tags), kind=kind)
 
 
 def corpus_cases(tier):
@@ -581,6 +582,23 @@ def generate(rng, tier):
         yield c
     for c in malformed_docs(rng):
         yield c
+    # tiling patterns held by the resources of a form (the typed clone of a form copies its whole resource dictionary;
+    # Pattern::deep_clone parses the pattern's operations, clones them one by one, prunes the pattern's own resources to
+    # what they name and writes the operations anew): the pattern of the copy must have the same operation sequence, the
+    # same entries and every resource its operations use.  No model: the model clones the dictionary form of a pattern.
+    for i in range(20 if quick else 300):
+        doc = docs.gen_doc(rng)
+        docs.plant_pattern_form(doc, rng, docs.PATTERN_FORM_KINDS[i % len(docs.PATTERN_FORM_KINDS)])
+        k = len(doc.pages)
+        sel = list(range(k)) if i % 3 else [rng.randrange(k) for _ in range(rng.randrange(1, 4))]
+        hk = rng.choice(["none", "none", "render", "render-all", "ops", "decode-all", "fonts", "images"])
+        yield page_case(rng, doc, sel, tags=["form-pattern"], model=False, jopts=PATTERN_JOPTS, hist=rnd_page_history(rng, doc, sel, hk))
+
+
+# The typed PatternDict has no field for /Type and /PatternType and no catch-all: the copy of a tiling pattern lacks both
+# (a defect of the typed writer, C15's subject; /PatternType is required by Table 75).  The cases about patterns are
+# narrowed to everything else — operation sequence, the other entries, the resources used — by naming the two keys here.
+PATTERN_JOPTS = {"pattern_lost_ok": ("Type", "PatternType")}
 
 
 def always(case, r):
